@@ -696,13 +696,115 @@ FIELDS = [
     Field('attributes-med', 'attrs', U(32), lambda v: f'med {v}', x_attr_int(4), 'med'),
     Field('attributes-nlri-mask', 'attrs', (0, 32), lambda v: ('', f'0.0.0.0/{v}'), x_mask, 'mask_ipv4'),
 ]
+
+
+# ---- alternative spellings: every other way the parsers accept to write the same value (read from the parser
+# functions: bare vs bracketed lists, ( ) sets, asdot, hex where int(x, 16) is used, keyword aliases, the dotted
+# path-information, aggregator with and without parentheses, the nested `route P { ...; }` form, the API
+# `announce ipv4 unicast ...` form, flow operands without `=`, in hex, in a one-element list).  Each is swept at the
+# boundary values of its range like the main spelling, with the same oracles.
+
+
+def x_aspath_at(idx):
+    def f(upd, sess, v):
+        segs = effective_as_path(upd, sess)
+        if not segs:
+            return None
+        asns = [a for t, l in segs for a in l]
+        return asns[idx] if len(asns) > idx else ('asns', asns)
+
+    return f
+
+
+def x_aigp(upd, sess, v):
+    a = attr(upd, 26)
+    if a is None:
+        return 'absent-by-design' if not sess.ibgp else None
+    return be_int(a[3:11]) if len(a) == 11 and a[0] == 1 else ('tlv', a.hex())
+
+
+def x_large_whole(upd, sess, v):
+    a = attr(upd, 32)
+    return None if a is None else (be_int(a) if len(a) == 12 else ('length', len(a)))
+
+
+def x_pathid_low(upd, sess, v):
+    got = x_pathid(upd, sess, v)
+    return got if not isinstance(got, int) else (got & 0xFF if got >> 8 == 0x010203 else ('other', got))
+
+
+def nested(kw):
+    return lambda v: ('NESTED', kw(v))
+
+
+def apifam(kw):
+    return lambda v: ('APIFAM', kw(v))
+
+
+ALT_FIELDS = [
+    Field('as-path-bare', 'static', U(32), lambda v: f'as-path {v}', x_aspath, 'asn'),
+    Field('as-path-set', 'static', U(32), lambda v: f'as-path ( {v} )', x_aspath, 'asn'),
+    Field('as-path-comma-list', 'static', U(32), lambda v: f'as-path [ {v} , 100 ]', x_aspath_at(0), 'asn'),
+    Field('as-path-second-segment', 'static', U(32), lambda v: f'as-path [ 100 ] [ {v} ]', x_aspath_at(1), 'asn'),
+    Field('as-path-bare-asdot-low', 'static', U(16), lambda v: f'as-path 1.{v}', x_aspath_dotted(1), 'asn_dotted_part'),
+    Field('as-path-nested-bare', 'static', U(32), nested(lambda v: f'as-path {v}'), x_aspath, 'asn'),
+    Field('as-path-api-family-form-bare', 'static', U(32), apifam(lambda v: f'as-path {v}'), x_aspath, 'asn'),
+    Field('aggregator-asn-no-parentheses', 'static', U(32), lambda v: f'aggregator {v}:1.2.3.4', x_aggregator, 'asn'),
+    Field('aggregator-asn-tight-parentheses', 'static', U(32), lambda v: f'aggregator ({v}:1.2.3.4)', x_aggregator, 'asn'),
+    Field('aggregator-asn-asdot', 'static', U(16), lambda v: f'aggregator ( 1.{v}:1.2.3.4 )',
+          lambda upd, sess, v: (lambda g: g if not isinstance(g, int) else (g - 65536 if g >> 16 == 1 else ('other', g)))(x_aggregator(upd, sess, v)), 'asn_dotted_part'),
+    Field('community-bare-high', 'static', U(16), lambda v: f'community {v}:1', x_community(0), 'community_high'),
+    Field('community-bare-low', 'static', U(16), lambda v: f'community 1:{v}', x_community(1), 'community_low'),
+    Field('community-bare-number', 'static', U(32), lambda v: f'community {v}', x_community(2), 'community_number'),
+    Field('community-hex-number', 'static', U(32), lambda v: f'community [ 0x{v:x} ]' if v >= 0 else f'community [ 0x-{-v:x} ]', x_community(2)),
+    Field('community-nested-high', 'static', U(16), nested(lambda v: f'community [ {v}:1 ]'), x_community(0), 'community_high'),
+    Field('large-community-bare-1', 'static', U(32), lambda v: f'large-community {v}:1:1', x_large(0), 'large_community_part'),
+    Field('large-community-bare-3', 'static', U(32), lambda v: f'large-community 1:1:{v}', x_large(2), 'large_community_part'),
+    Field('large-community-decimal-number', 'static', U(96), lambda v: f'large-community [ {v} ]', x_large_whole),
+    Field('large-community-hex-number', 'static', U(96), lambda v: f'large-community [ 0x{v:x} ]' if v >= 0 else f'large-community [ 0x-{-v:x} ]', x_large_whole),
+    Field('extended-community-bare-target-asn', 'static', U(32), lambda v: f'extended-community target:{v}:1', x_ext_target_asn),
+    Field('extended-community-origin-number', 'static', U(32), lambda v: f'extended-community [ origin:1:{v} ]', x_ext(4, 8)),
+    Field('extended-community-target-asn-L-suffix', 'static', U(32), lambda v: f'extended-community [ target:{v}L:1 ]', x_ext(2, 6)),
+    Field('cluster-list-bare-octet', 'static', (0, 255), lambda v: f'cluster-list 1.2.3.{v}', x_ipv4_last(10)),
+    Field('aigp-hex', 'static', U(64), lambda v: f'aigp 0x{v:x}' if v >= 0 else f'aigp 0x-{-v:x}', x_aigp, None),
+    Field('med-nested', 'static', U(32), nested(lambda v: f'med {v}'), x_attr_int(4), 'med'),
+    Field('med-api-family-form', 'static', U(32), apifam(lambda v: f'med {v}'), x_attr_int(4), 'med'),
+    Field('label-nested', 'static', U(20), nested(lambda v: f'label {v}'), x_label(0), 'label'),
+    Field('path-information-dotted-octet', 'static', (0, 255), lambda v: f'path-information 1.2.3.{v}', x_pathid_low),
+    Field('path-information-nested', 'static', U(32), nested(lambda v: f'path-information {v}'), x_pathid, 'path_information'),
+    Field('route-distinguisher-asn2-number', 'static', U(32), lambda v: f'route-distinguisher 1:{v} label 100', x_rd(2)),
+    Field('route-distinguisher-asn4-number', 'static', U(16), lambda v: f'route-distinguisher 70000:{v} label 100', x_rd(2)),
+    Field('rd-nested-asn2-admin', 'static', U(32), nested(lambda v: f'rd {v}:1; label 100'), x_rd(1)),
+    Field('attribute-code-uppercase-hex', 'static', (0, 255), lambda v: f'attribute [ 0X{v:X} 0XC0 0X00 ]' if v >= 0 else f'attribute [ 0X-{-v:X} 0XC0 0X00 ]',
+          x_generic('code'), 'attribute_code'),
+    Field('flow-port-bare', 'flow4', U(16), lambda v: flow4(f'port {v}'), x_flow('port'), 'flow_port'),
+    Field('flow-port-hex', 'flow4', U(16), lambda v: flow4(f'port =0x{v:x}' if v >= 0 else f'port =0x-{-v:x}'), x_flow('port')),
+    Field('flow-port-greater-than', 'flow4', U(16), lambda v: flow4(f'port >{v}'), x_flow('port'), 'flow_port'),
+    Field('flow-destination-port-one-element-list', 'flow4', U(16), lambda v: flow4(f'destination-port [ ={v} ]'), x_flow('destination-port'), 'flow_port'),
+    Field('flow-source-port-bare-list', 'flow4', U(16), lambda v: flow4(f'source-port [ {v} ]'), x_flow('source-port'), 'flow_port'),
+    Field('flow-protocol-bare', 'flow4', U(8), lambda v: flow4(f'protocol {v}'), x_flow('protocol'), 'flow_protocol'),
+    Field('flow-protocol-hex', 'flow4', U(8), lambda v: flow4(f'protocol =0x{v:x}' if v >= 0 else f'protocol =0x-{-v:x}'), x_flow('protocol')),
+    Field('flow-icmp-type-bare', 'flow4', U(8), lambda v: flow4(f'icmp-type {v}'), x_flow('icmp-type'), 'flow_icmp_type'),
+    Field('flow-dscp-bare', 'flow4', U(6), lambda v: flow4(f'dscp {v}'), x_flow('dscp'), 'flow_dscp'),
+    Field('flow-packet-length-list', 'flow4', U(16), lambda v: flow4(f'packet-length [ >={v} ]'), x_flow('packet-length'), 'flow_packet_length'),
+    Field('flow-flow-label-bare', 'flow6', U(20), lambda v: flow6(f'flow-label {v}'), x_flow('flow-label', True), 'flow_flow_label'),
+    Field('flow-next-header-bare', 'flow6', U(8), lambda v: flow6(f'next-header {v}'), x_flow('next-header', True), 'flow_next_header'),
+]
+FIELDS += ALT_FIELDS
+ALT_NAMES = {f.name for f in ALT_FIELDS}
 FIELD = {f.name: f for f in FIELDS}
+FIELD['aigp'].extract = x_aigp
 FIELD['label-stack-first'].excluded = (0, 524288)
 
 
 def texts_of(field, v):
     """-> {'conf': section text, 'prt': text | None, 'api': command}"""
     kw = field.text(v)
+    if isinstance(kw, tuple) and kw[0] == 'NESTED':
+        body = 'route 10.0.0.0/24 { next-hop 1.2.3.4; %s; }' % kw[1]
+        return {'conf': 'static { %s }' % body, 'prt': body, 'api': 'peer * announce ' + body}
+    if isinstance(kw, tuple) and kw[0] == 'APIFAM':
+        return {'conf': None, 'prt': None, 'api': 'peer * announce ipv4 unicast 10.0.0.0/24 next-hop 1.2.3.4 ' + kw[1]}
     if field.kind == 'static':
         base = field.base(v) if field.base else (BASE4)
         route = (base + ' ' + kw).strip()
@@ -759,7 +861,8 @@ GROUPS = [
     (r'(vpls-)?rd-', 'rd'), (r'flow-(source|destination)-mask-', 'flow-prefix-length'),
     (r'flow-(protocol|icmp-type|icmp-code|next-header|traffic-class)$', 'flow-one-octet-component'),
     (r'flow-packet-length', 'flow-packet-length'), (r'flow-redirect-', 'flow-redirect'), (r'.*-octet$', 'ipv4-address-text'),
-    (r'label(-list|-vpn)?$', 'label'), (r'as-path', 'as-path'), (r'extended-community-', 'extended-community'),
+    (r'label(-list|-vpn|-nested)?$', 'label'), (r'route-distinguisher-', 'rd'), (r'aggregator-asn', 'aggregator-asn'), (r'community-(bare|nested)-(high|low)$', 'community-half'),
+    (r'large-community-bare-\d$', 'large-community'), (r'cluster-list-bare-octet', 'ipv4-address-text'), (r'as-path', 'as-path'), (r'extended-community-', 'extended-community'),
     (r'flow-(destination-port|source-port|port)$', 'flow-port'), (r'attributes-', 'attributes'),
 ]
 
@@ -768,6 +871,8 @@ def group_of(field):
     """failing-case signatures name the root cause (one per parser), not every keyword variant"""
     if field is None:
         return 'stream'
+    if field.name in ALT_NAMES:
+        return field.name  # an alternative spelling is its own root cause (its own branch of the parser)
     for pat, g in GROUPS:
         if re.match(pat, field.name):
             return g
@@ -873,7 +978,7 @@ def judge_routes(field, v, routes, entry, problems, stats, compare=True):
                     return
             if field is None or field.extract is None or not compare or len(routes) != 1:
                 continue
-            if field.name in ('attribute-code',) and v in KNOWN_CODES:
+            if field.name.startswith('attribute-code') and v in KNOWN_CODES:
                 continue
             try:
                 got = field.extract(upd, sess, v)
